@@ -561,26 +561,35 @@ def computed_display(e):
 
 
 def ref_words(body):
-    """words that must reach the page, in document order; None when an order-changing display is present"""
+    """words that must reach the page, in document order; second result: an order-changing display is present.
+    Text nodes separated only by elements that generate no box are one run of text."""
     out, reorder = [], [False]
 
-    def el(e):
-        if isinstance(e, str):
-            out.extend(e.split())
-            return
-        d = computed_display(e)
-        if d == 'none' or d in ('table-column', 'table-column-group'):
+    def seq(kids):
+        buf = ''
+        for k in kids:
+            if isinstance(k, str):
+                buf += k
+                continue
+            d = computed_display(k)
+            if d == 'none':
+                continue
+            out.extend(buf.split())
+            buf = ''
+            el(k, d)
+        out.extend(buf.split())
+
+    def el(e, d):
+        if d in ('table-column', 'table-column-group'):
             return
         if d in REORDERING:
             reorder[0] = True
         if e['before'] and e['before']['display'] != 'none':
             out.extend(e['before']['content'].split())
-        for k in e['kids']:
-            el(k)
+        seq(e['kids'])
         if e['after'] and e['after']['display'] != 'none':
             out.extend(e['after']['content'].split())
-    for e in body:
-        el(e)
+    seq(body)
     return out, reorder[0]
 
 
